@@ -256,6 +256,8 @@ mod test_helpers;
 pub mod track;
 mod tween;
 mod value;
+#[cfg(kira_verif)]
+pub mod verif_hooks;
 
 pub use backend::DefaultBackend;
 pub use decibels::*;
